@@ -27,6 +27,8 @@ TXNS = [
     T('OneOff', 'Shop', 'Big', 1500.0, 2024, 12, 30, ['gift']),
     # the same calendar month in two years: month buckets are year-months
     T('Insurance', 'Bills', 'Ins', 100.0, 2024, 3, 4), T('Insurance', 'Bills', 'Ins', 100.0, 2025, 3, 4), T('Insurance', 'Bills', 'Ins', 200.0, 2025, 4, 4),
+    # a payment on 29 February: day and week buckets are real calendar dates
+    T('LeapGym', 'Health', 'Fit', 40.0, 2024, 2, 15), T('LeapGym', 'Health', 'Fit', 40.0, 2024, 2, 29), T('LeapGym', 'Health', 'Fit', 10.0, 2024, 12, 31), T('LeapGym', 'Health', 'Fit', 10.0, 2025, 1, 1),
 ]
 
 
@@ -88,6 +90,8 @@ VIEWS = [
     ('max(count(by("day"))) >= 2', lambda s: max(len(g) for g in s['by']('day')) >= 2),
     ('count(by("day")) == count(payments)', None),      # auto-mapped count returns a list: compared with a number -> False for everyone
     ('max(count(by("week"))) >= 2', lambda s: max(len(g) for g in s['by']('week')) >= 2),
+    ('max(sum(by("day"))) > 50', lambda s: max(sum(g) for g in s['by']('day')) > 50),
+    ('count(sum(by("week"))) >= 4', lambda s: len(s['by']('week')) >= 4),
     ('min(sum(by("year"))) < 0', lambda s: min(sum(g) for g in s['by']('year')) < 0),
     ('stddev(payments) > 10', lambda s: len(s['payments']) >= 2 and stdev(s['payments']) > 10),
     ('total > lim', lambda s: s['total'] > 900),         # lim is a view-local variable
